@@ -49,6 +49,12 @@ Theorem minCut_is_model : forall (kf : zone -> N) a b ka kb,
 Proof. exact gen_minCut. Qed.
 Print Assumptions minCut_is_model.
 
+(* cache.CacheEntry.remaining (the one place that decides how long a stored answer is served), translated
+   from the source on every run, is the model's: TTL minus age, cut short by the inherited cut *)
+Theorem entry_remaining_is_model : forall e now, go_CacheEntry_remaining e now = ae_remaining (ae_of e) now.
+Proof. exact gen_CacheEntry_remaining. Qed.
+Print Assumptions entry_remaining_is_model.
+
 (* ---- lease_def: what an uncached descent stores, and that a Get after it misses *)
 
 Theorem lease_def : forall fx st i r rs, plain_miss st i r rs ->
